@@ -59,6 +59,13 @@ def run(repo, rep, tier):
     from . import c11
     L.borrow(repo, rep, "R08.2", "C11", c11._algebra,
              ("str-signature:split",))
+    lt = repo.func("chameleon.tal.RepeatItem._letter")
+    wl = [n for n in ast.walk(lt.node) if isinstance(n, ast.While)]
+    rep.check(len(wl) == 1 and isinstance(wl[0].test, ast.Constant)
+              and wl[0].test.value is True, "R08.5", lt.qualname, "the digit "
+              "loop of letter() runs until the index is used up (while "
+              "True ... return)", construct="letter-loop-runs",
+              where=L.where(lt))
     L.state_rule(repo, rep)
 
 
